@@ -296,3 +296,8 @@ impl Parameters {
             .map(|(f1, f2)| crate::time::Duration::from_millis(u64::from(f1) * u64::from(f2) * 10))
     }
 }
+
+#[cfg(kani)]
+mod verif {
+    include!(concat!(env!("PROFIRUST_VERIF_HARNESS"), "/fdl_parameters.rs"));
+}
